@@ -36,6 +36,7 @@ func recordAPIMain(args []string) {
 	w := bufio.NewWriter(f)
 	defer w.Flush()
 	g := &gen{rand.New(rand.NewSource(*seed))}
+	tg := &tgen{r: g.r, root: typedSchema()}
 	seq := 0
 	emit := func(m map[string]any) {
 		seq++
@@ -67,7 +68,30 @@ func recordAPIMain(args []string) {
 		// documents: two random ones with an array under "a"
 		var docsGo []any
 		var docsJ []any
+		// one history in three is typed (typed.go): documents along the schema, and a pool of six expressions
+		// grown for that schema, so that one compiled expression meets several documents and other expressions'
+		// results (C06, C18)
+		typedHist := g.r.Intn(3) == 0
+		var pool []string
+		if typedHist {
+			for k := 0; k < 6; k++ {
+				tg.vars = tg.vars[:0]
+				e, _ := tg.expr(tg.root, 1+g.r.Intn(3))
+				pool = append(pool, e)
+			}
+		}
 		for d := 0; d < 2; d++ {
+			if typedHist {
+				m := tg.doc()
+				tv := fromGo(m)
+				if !smallEnough(tv) {
+					d--
+					continue
+				}
+				docsGo = append(docsGo, m)
+				docsJ = append(docsJ, tv.toJSON())
+				continue
+			}
 			m := map[string]any{"a": g.value(2), "b": g.value(1)}
 			if g.r.Intn(2) == 0 {
 				arr := make([]any, 1+g.r.Intn(4))
@@ -93,6 +117,9 @@ func recordAPIMain(args []string) {
 			text := texts[g.r.Intn(len(texts))]
 			if g.r.Intn(4) == 0 {
 				text = g.expr(1 + g.r.Intn(3))
+			}
+			if typedHist && g.r.Intn(5) > 0 {
+				text = pool[g.r.Intn(len(pool))]
 			}
 			switch k := g.r.Intn(10); {
 			case k < 2:
